@@ -22,6 +22,7 @@ const EXPECT = {
   'missing-end-tag': ['missing end tag', LEVEL.Warn],
   'cut-start-tag': ['incomplete tag', LEVEL.Fatal],
   'cut-end-tag': ['incomplete tag', LEVEL.Fatal],
+  'cut-comment': ['incomplete tag', LEVEL.Fatal],
   'unterminated-binding': ['missing expression end', LEVEL.Fatal],
   'trailing-garbage': ['unexpected character inside expression', LEVEL.Fatal],
   'unknown-wx-directive': ['invalid attribute prefix', LEVEL.Warn],
@@ -90,6 +91,12 @@ function inject(rng, fs_, st) {
       const text = printMain(file)
       const tag = rng.pick(['view', 'a', 'block'])
       const tail = rng.pick(['<' + tag + '>x</' + tag, '<' + tag + '>x</' + tag + ' ', '<' + tag + '>x</' + tag + '\n', '<' + tag + ' a="1"><b/></' + tag])
+      return { text: text + tail, kind, site: 'end of input: ' + JSON.stringify(tail) }
+    }
+    case 'cut-comment': {
+      // a comment that is never closed swallows the rest of the input
+      const text = printMain(file)
+      const tail = rng.pick(['<!-- TODO: re-enable\n<view>b</view>', '<!-- c', '<!--', '<!-- a -- b ->', '<view>x</view><!-- c --'])
       return { text: text + tail, kind, site: 'end of input: ' + JSON.stringify(tail) }
     }
     case 'unterminated-binding': {
@@ -174,6 +181,8 @@ export async function run(ctx) {
     const fs_ = genFileSet(r, { withInclude: false, slotReceivers: true })
     // identifiers of the full documented alphabet (`$` and `_` anywhere, digits after the first character)
     if (r.bool(0.3)) fs_.files[fs_.main].children.push({ t: 'el', tag: 'i', attrs: [{ fam: 'plain', name: 'v', value: M.ev(X.bin('+', X.id(r.pick(['cls$name', '$', '$_', '_1', 'a$', '$9x'])), X.mem(X.id('$c'), r.pick(['_d$', '$', 'x$y']))) ) }], children: [{ t: 'text', v: M.ev(X.obj([{ k: 'kv', name: r.pick(['k$', '_k', '$']), e: X.id('_e1$') }])) }] })
+    // comments are documented syntax everywhere, also as the only content of an element that takes no children
+    if (r.bool(0.15)) fs_.files[fs_.main].children.push({ t: 'raw', wxml: r.pick(['<slot name="footer">\n  <!-- default content -->\n</slot>', '<slot><!-- c --></slot>', '<include src="./other"><!-- c --></include>', '<import src="./other"> <!-- c --> </import>', '<template is="nosuch" data="{{ {a} }}"><!-- note --></template>']) })
     const multiline = r.bool(0.6)
     const st = { rng: r, spacing: r.bool(0.5), entities: r.bool(0.4) ? 0.2 : 0, layout: multiline, between: true, shuffleAttrs: r.bool(0.5), unquoted: true }
     let clean
